@@ -3,6 +3,7 @@ C03: what a parser hands back (`remaining()`) is a suffix of what it was given â
 chunked decoder (`ChunkSuffix.lean`). This is what makes `total - inBuf.length()` an offset into the client stream.
 -/
 import SquidModel.Smuggle.Delimit
+import SquidModel.Http1.SegLemmas
 
 namespace SquidModel.Smuggle
 open SquidModel SquidModel.Http1
